@@ -133,7 +133,7 @@ func (q c19BQ) Put(b *block.Block) error {
 	net.trace = append(net.trace, c19Ev{K: "accept", I: nd.i, H: b.Index, V: view, B: net.idOf(b.Hash())})
 	if err != nil {
 		if have, e2 := nd.bc.GetBlock(b.Hash()); e2 != nil || have == nil {
-			net.violate("validator %d: its own ledger rejects the block its consensus service committed at height %d: %v", nd.i, b.Index, err)
+			net.violate("own ledger rejects the block the consensus service committed (validator %d, height %d): %v", nd.i, b.Index, err)
 		}
 	}
 	if old, ok := net.blocks[b.Index]; ok {
@@ -317,7 +317,7 @@ func (n *c19Net) feedBlock(nd *c19Node, b *block.Block) {
 		}
 		if err := nd.bc.AddBlock(x); err != nil && nd.bc.BlockHeight() < h {
 			n.mu.Lock()
-			n.violate("validator %d: ledger rejects the block committed at height %d by another validator: %v", nd.i, h, err)
+			n.violate("ledger rejects a block committed by another validator (validator %d, height %d): %v", nd.i, h, err)
 			n.mu.Unlock()
 			return
 		}
@@ -476,6 +476,12 @@ func c19Run(in c19Input) (*c19Net, string) {
 		if now.After(deadline) {
 			break
 		}
+		net.mu.Lock()
+		nv := len(net.viol)
+		net.mu.Unlock()
+		if nv > 0 {
+			break // something is already wrong: no point in waiting for progress
+		}
 		if in.Mode == "silent" && now.After(nextSilence) {
 			net.mu.Lock()
 			// a new set of at most f validators goes quiet for a while (their payloads are lost both ways)
@@ -498,7 +504,7 @@ func c19Run(in c19Input) (*c19Net, string) {
 	}
 	net.mu.Lock()
 	defer net.mu.Unlock()
-	if in.Mode == "sync" {
+	if in.Mode == "sync" && len(net.viol) == 0 {
 		if reached < target {
 			net.violate("all validators honest and every message delivered, but only height %d of %d was reached in 180 s", reached, target)
 		} else if !allIncluded() {
@@ -540,7 +546,7 @@ func c19Run(in c19Input) (*c19Net, string) {
 				break
 			}
 			if err := nd.bc.AddBlock(b); err != nil {
-				net.violate("validator %d: ledger rejects the block committed at height %d: %v", nd.i, h, err)
+				net.violate("ledger rejects a committed block after the run (validator %d, height %d): %v", nd.i, h, err)
 				break
 			}
 		}
